@@ -1266,3 +1266,167 @@ def match_result_deref_rule(chk: Check, rid: str, funcs, floor: int) -> None:
                    "without a test", False)
     if n < floor:
         raise AnalysisError("functions examined: {}".format(n))
+
+
+def passthrough_of_existing_coordinates_rule(chk: Check, rid: str,
+                                             quals, floor: int) -> None:
+    """unique() / distinct() may be handed a *virtual* list (the result of a
+    slice or a Collector) whose elements already are NodeCoords carrying
+    their real place in the document.  Such an element must be handed on as
+    it is.  Wrapped again -- NodeCoords(element, <the virtual list>, <its
+    position there>) -- the value read is the same, but a delete or set
+    through the result edits the throw-away list and the document stays as
+    it was."""
+    from sa.model import ancestors, walk_local
+    prog = chk.prog
+    chk.rule(rid, "in the list arms of unique() / distinct() an element "
+             "that already is a NodeCoords is passed through: every "
+             "NodeCoords(...) built with the data list as parent stands "
+             "under `not isinstance(<element>, NodeCoords)`", floor=floor)
+    n = 0
+    for q in quals:
+        fi = prog.func(q)
+        chk.analysed(fi)
+        data = fi.params()[0]
+        for loop in walk_local(fi.node):
+            if not (isinstance(loop, ast.For) and
+                    isinstance(loop.iter, ast.Call) and
+                    src(loop.iter.func) == "enumerate" and loop.iter.args
+                    and src(loop.iter.args[0]) == data and
+                    isinstance(loop.target, ast.Tuple)):
+                continue
+            ele = src(loop.target.elts[1])
+            for c in walk_local(loop):
+                if not (isinstance(c, ast.Call) and
+                        src(c.func) == "NodeCoords" and len(c.args) >= 3
+                        and src(c.args[1]) == data):
+                    continue
+                n += 1
+                guarded = False
+                child = c
+                for a in ancestors(c):
+                    if isinstance(a, ast.IfExp) and child is a.orelse and \
+                            src(a.test) == "isinstance({}, NodeCoords)"\
+                            .format(ele):
+                        guarded = True
+                    if isinstance(a, ast.If) and \
+                            src(a.test).replace(" ", "") in (
+                                "notisinstance({},NodeCoords)".format(ele),):
+                        guarded = guarded or child in a.body
+                    if isinstance(a, ast.If) and src(a.test) == \
+                            "isinstance({}, NodeCoords)".format(ele):
+                        guarded = guarded or child in a.orelse
+                    child = a
+                text = "{}: NodeCoords({}, {}, ...)".format(
+                    fi.short, src(c.args[0]), data)
+                if guarded:
+                    chk.ok(rid, fi, c, text, "only for an element that is "
+                           "not yet a NodeCoords")
+                else:
+                    chk.fail(rid, fi, c, text,
+                             "an element that already carries its document "
+                             "coordinates is wrapped again with the "
+                             "(possibly virtual) list as parent: "
+                             "`recs[1:4][unique(kind)]` still reads the "
+                             "right records, but deleting or setting "
+                             "through the result changes a temporary list")
+    if n < floor:
+        raise AnalysisError("{}: {} construction site(s) found".format(
+            rid, n))
+
+
+def modulo_by_length_rule(chk: Check, rid: str, funcs, floor: int) -> None:
+    """`i % len(x)` / `i // len(x)` divides by zero for an empty x.  The
+    evaluator meets empty Arrays as a matter of course (a slice that
+    matched nothing still yields its coordinates), so the divisor needs a
+    non-emptiness fact in front of it."""
+    from sa import partial
+    from sa.model import walk_local
+    chk.rule(rid, "no division / modulo by a len() without a non-emptiness "
+             "fact", floor=floor)
+    pos = ast.parse("def f(i, x):\n    return i % len(x)\n")
+    hits = [b for b in ast.walk(pos) if isinstance(b, ast.BinOp) and
+            isinstance(b.op, (ast.Mod, ast.FloorDiv, ast.Div)) and
+            isinstance(b.right, ast.Call) and src(b.right.func) == "len"]
+    if len(hits) != 1:
+        raise AnalysisError("modulo detector lost its positive sample")
+    n = 0
+    for fi in funcs:
+        n += 1
+        bad = None
+        for b in walk_local(fi.node):
+            if not (isinstance(b, ast.BinOp) and
+                    isinstance(b.op, (ast.Mod, ast.FloorDiv, ast.Div)) and
+                    isinstance(b.right, ast.Call) and
+                    src(b.right.func) == "len" and b.right.args):
+                continue
+            if isinstance(b.left, (ast.Constant, ast.JoinedStr)) and \
+                    isinstance(getattr(b.left, "value", None), str):
+                continue        # "text" % value
+            need = {src(b.right): 1, "": -1}
+            if partial.ge0(partial._xfacts(b, fi), need) is None:
+                bad = b
+                break
+        if bad is not None:
+            chk.fail(rid, fi, bad, "{}: `{}`".format(fi.short, src(bad)),
+                     "`{}` may be 0 (an empty Array is ordinary document "
+                     "data): ZeroDivisionError, a foreign exception"
+                     .format(src(bad.right)))
+        else:
+            chk.ok(rid, fi, fi.node, fi.short, "no unguarded division by a "
+                   "length", False)
+    if n < floor:
+        raise AnalysisError("functions examined: {}".format(n))
+
+
+def attribute_after_augmented_rebinding_rule(chk: Check, rid: str,
+                                             relpaths: Iterable[str],
+                                             floor: int) -> None:
+    """`x += delta` on an immutable object (a datetime) binds `x` to a NEW
+    object.  Private state that the old object carried (`x._yaml`) is not on
+    the new one -- or is there with default content.  A function that reads
+    `x.<attr>` both before and after such a re-binding reads two different
+    objects; the state must be taken into a local before."""
+    from sa.model import walk_local
+    prog = chk.prog
+    chk.rule(rid, "no attribute of a name is read after an augmented "
+             "assignment re-bound that name, when the same attribute was "
+             "read before it", floor=floor)
+    n = 0
+    for rel in relpaths:
+        for fi in prog.funcs_in(rel):
+            n += 1
+            bad = None
+            for aug in walk_local(fi.node):
+                if not (isinstance(aug, ast.AugAssign) and
+                        isinstance(aug.target, ast.Name)):
+                    continue
+                name = aug.target.id
+                before = {a.attr for a in walk_local(fi.node)
+                          if isinstance(a, ast.Attribute) and
+                          isinstance(a.value, ast.Name) and
+                          a.value.id == name and
+                          (a.lineno, a.col_offset) <=
+                          (aug.lineno, aug.col_offset + 10 ** 6)
+                          and a.lineno <= aug.lineno}
+                after = [a for a in walk_local(fi.node)
+                         if isinstance(a, ast.Attribute) and
+                         isinstance(a.value, ast.Name) and
+                         a.value.id == name and a.lineno > aug.lineno and
+                         a.attr in before and a.attr.startswith("_")]
+                if after:
+                    bad = after[0]
+                    break
+            if bad is not None:
+                chk.fail(rid, fi, bad, "{}: `{}` after `{} {}= ...`".format(
+                    fi.short, src(bad), name, "+"),
+                    "`{}` was re-bound by the augmented assignment: the "
+                    "object read here is a new one and does not carry the "
+                    "private state (`{}`) of the node that was loaded -- a "
+                    "time-zone suffix is lost and the value written is "
+                    "another instant".format(name, bad.attr))
+            else:
+                chk.ok(rid, fi, fi.node, fi.short, "private state is read "
+                       "from one object", False)
+    if n < floor:
+        raise AnalysisError("functions examined: {}".format(n))
